@@ -292,7 +292,10 @@ fn plain_types(acc: &mut Acc, z: i64, times: &[(u32, u32)], offs: &[i32]) {
                 acc.transitions += a2.transitions;
                 if !ok {
                     for v in a2.viol.iter().take(1) {
-                        acc.violation("DateTime<FixedOffset>:headroom-roundtrip", v.call.clone(), v.expected.clone(), v.actual.clone());
+                        // the known finding is "the text is rejected on the way back"; a panic or a refusal to
+                        // serialize is something else
+                        let key = if v.key.ends_with("-roundtrip") && v.actual.starts_with("Ok(Err") { "DateTime<FixedOffset>:headroom-roundtrip".to_string() } else { format!("{}:headroom", v.key) };
+                        acc.violation(&key, v.call.clone(), v.expected.clone(), v.actual.clone());
                     }
                 }
                 continue;
@@ -307,7 +310,8 @@ fn plain_types(acc: &mut Acc, z: i64, times: &[(u32, u32)], offs: &[i32]) {
                 acc.transitions += a2.transitions;
                 if !ok {
                     for v in a2.viol.iter().take(1) {
-                        acc.violation("DateTime<FixedOffset>:offset-with-seconds", v.call.clone(), format!("{} (same instant)", v.expected), v.actual.clone());
+                        let key = if v.key.ends_with("-roundtrip") && v.actual.starts_with("Ok(") { "DateTime<FixedOffset>:offset-with-seconds".to_string() } else { format!("{}:offset-with-seconds", v.key) };
+                        acc.violation(&key, v.call.clone(), format!("{} (same instant)", v.expected), v.actual.clone());
                     }
                 }
                 continue;
